@@ -47,11 +47,15 @@ def one(name):
         res["applies"] = rc == 0
         if rc:
             return res
-        for attempt in range(3):  # one timing-based test of the suite is flaky on a loaded machine
+        for attempt in range(8):  # tests/e2e binds a fixed TCP port: parallel suites collide there
             rc, out = sh(SUITE, cwd=d, env=env, timeout=1200)
             res["suite_with_patch"] = out.strip().splitlines()[-1] if out.strip() else ""
-            if "193 passed" in res["suite_with_patch"]:
+            failed = [l for l in out.splitlines() if l.startswith("FAILED")]
+            if "193 passed" in res["suite_with_patch"] or not failed \
+                    or not all("tests/e2e/" in l for l in failed):
                 break
+            import time as _t
+            _t.sleep(0.9 * (attempt + 1))
             res.setdefault("suite_retries", []).append(
                 [l for l in out.splitlines() if l.startswith("FAILED")][:3])
         rc, out = sh(demo, cwd=d, env=env, timeout=600)
